@@ -67,6 +67,13 @@ func (c *RunCtx) Failed() bool { return len(c.Violations) > 0 }
 // Count adds to a coverage probe / fault counter.
 func (c *RunCtx) Count(name string, n int) { c.Stats[name] += n }
 
+// Max records the maximum of a quantity (name must start with "max_").
+func (c *RunCtx) Max(name string, v int) {
+	if v > c.Stats[name] {
+		c.Stats[name] = v
+	}
+}
+
 // Logf appends a line to the human-readable trace (only kept when KeepLog).
 func (c *RunCtx) Logf(format string, a ...interface{}) {
 	if c.KeepLog {
